@@ -1,6 +1,6 @@
 (* C27/Examples.v — concrete instances (non-vacuity) and the refutation witnesses. *)
 From ZV Require Import Base.Bytes Base.WinnowFacts C26.Desc C26.Tree C26.Msg C26.Std C27.Model C28.Model C26.Model.
-From ZV Require Import C28.Spec C26.Spec C27.Spec C26.Facts C26.Proofs C28.Proofs C27.Proofs C26.Examples C28.Examples.
+From ZV Require Import C28.Spec C26.Spec C27.Spec C26.Facts C26.Proofs C28.Proofs C27.Proofs C27.Reader C27.ReadBack C26.Examples C28.Examples.
 
 (* a description with doc comments: plain, multi-line with blank lines around, and one containing "--" *)
 Definition doc_d (bad : bool) : idesc :=
@@ -64,3 +64,12 @@ Qed.
 
 Lemma wellformed_full_refuted : ~ (forall n name, xi_wf (node_item name n) = true).
 Proof. intro F. destruct wellformed_refuted as (n & _ & H & _). rewrite F in H. discriminate. Qed.
+
+(* the nested tree with doc comments reads back as the declared document (comments dropped) *)
+Example doc_reads_back :
+  names_ok (doc_root true) /\
+  exists t, erase (node_item None (doc_root true)) = [t] /\ read_doc t = Ok (d_node None (doc_root true)).
+Proof.
+  assert (H : names_ok (doc_root true)) by (vm_compute; repeat (split || constructor)).
+  split; [exact H|]. apply reads_back. exact H.
+Qed.
